@@ -467,6 +467,20 @@ def ctl_cases(draw):
             for p in draw(st.lists(TEXT, max_size=2)):
                 out.append('D %s %s' % (addr, ' '.join(p)))
                 blk['desc'].append(p)
+            if draw(st.sampled_from([0, 0, 0, 0, 1])):
+                # a #TABLE or #LIST block in the description: sna2skool writes one row/item per line and wraps long ones,
+                # aligned under the cell text with the <wrapalign> flag (extra spaces after '{' or '|' are kept)
+                flag = draw(st.sampled_from(['', '<wrapalign>', '<wrapalign>']))
+                cw = st.lists(st.text(LETTERS, min_size=1, max_size=10), min_size=1, max_size=25).map(' '.join)
+                pad = st.sampled_from([' ', ' ', '  ', '    '])
+                if draw(st.booleans()):
+                    rows = ['{%s%s |%s%s }' % (draw(pad), draw(st.text(LETTERS, min_size=1, max_size=4)), draw(pad), draw(cw)) for _ in range(draw(st.integers(1, 3)))]
+                    raw = '#TABLE(default)%s %s TABLE#' % (flag, ' '.join(rows))
+                else:
+                    rows = ['{%s%s }' % (draw(pad), draw(cw)) for _ in range(draw(st.integers(1, 3)))]
+                    raw = '#LIST%s %s LIST#' % (flag, ' '.join(rows))
+                out.append('D %s %s' % (addr, raw))
+                blk['desc'].append(raw.split())
             if draw(st.integers(0, 2)) == 0:
                 name, text = draw(st.sampled_from(REGS)), draw(TEXT)
                 out.append('R %s %s %s' % (addr, name, ' '.join(text)))
@@ -555,6 +569,7 @@ def ctl_oracle(case, rec=None):
             exp += p
     got = [w.strip('{}') if w in ('{', '}') else w for w in stream]
     got = _strip_braces(stream)
+    exp = _strip_braces(exp)        # (the row/item braces of #TABLE/#LIST blocks in descriptions go the same way)
     if got != exp:
         raise Violation('ctl:words', 'comment words in the skool file differ from the control file: %s' % _first_diff(got, exp), case)
     for l in over:
